@@ -529,12 +529,16 @@ func c11Gen(seed int64, idx int) c11Case {
 			ms.Features = append(ms.Features, fmt.Sprintf("%s:ord-f%d", a.Arg, i))
 		}
 		kids = append(kids, yang.S("container", "ord-c", yang.S("leaf", "idr", yang.S("type", "identityref", yang.S("base", "ord-base"))),
-			yang.S("leaf", "w", yang.S("type", "string")), yang.S("leaf", "x", yang.S("type", "string")), yang.S("leaf", "y", yang.S("type", "string")), yang.S("leaf", "z", yang.S("type", "string"))))
+			yang.S("leaf", "w", yang.S("type", "string")), yang.S("leaf", "x", yang.S("type", "string")), yang.S("leaf", "y", yang.S("type", "string")), yang.S("leaf", "z", yang.S("type", "string")),
+			yang.S("leaf", "v", yang.S("type", "string"), yang.S("default", "0"))))
 		addBody(a, kids...)
 		for i, lf := range []string{"w", "x", "y", "z"} {
 			d := yang.S("module", fmt.Sprintf("ord-dev%d", i+1), yang.S("namespace", fmt.Sprintf("urn:verif:ord-dev%d", i+1)), yang.S("prefix", "od"),
 				yang.S("import", a.Arg, yang.S("prefix", "oa")),
-				yang.S("deviation", "/oa:ord-c/oa:"+lf, yang.S("deviate", "add", yang.S("units", "u"))))
+				yang.S("deviation", "/oa:ord-c/oa:"+lf, yang.S("deviate", "add", yang.S("units", "u"))),
+				// all four modules also replace the default of one and the same leaf: what comes out depends
+				// on the order in which the deviating modules are applied, which must be a fixed one
+				yang.S("deviation", "/oa:ord-c/oa:v", yang.S("deviate", "replace", yang.S("default", fmt.Sprintf("from-dev%d", i+1)))))
 			_ = pa
 			ms.Mods = append(ms.Mods, d)
 		}
